@@ -243,8 +243,23 @@ class EvolveAppTask(BaseEvolutionTask):
                         task_sql = task_info.get('sql')
 
                         if task_sql:
+                            # Only report the evolutions that are part of
+                            # this batch, rather than everything pending
+                            # for the task.
+                            batch_labels = task_info.get('evolutions')
+
+                            if batch_labels is None:
+                                batch_evolutions = None
+                            else:
+                                batch_evolutions = [
+                                    evolution
+                                    for evolution in task.new_evolutions
+                                    if evolution.label in batch_labels
+                                ]
+
                             task.execute(sql_executor=sql_executor,
                                          sql=task_sql,
+                                         evolutions=batch_evolutions,
                                          **kwargs)
             elif batch_type == UpgradeMethod.MIGRATIONS:
                 assert migrating
